@@ -182,6 +182,8 @@ func scenC07(r *Run, job *Job) {
 	r.Known = ghostGeneration(w, e)
 	if r.Known != "" {
 		r.Probe(r.Known)
+	} else {
+		r.Known = zombieAPIRequest(r, w)
 	}
 	timeoutBody := []byte(timeoutText(timeoutSec))
 	inj := time.Duration(r.Stats.InjectedDelayNs)
